@@ -18,6 +18,7 @@
 #include <cppcms/xss.h>
 #include <booster/regex.h>
 #include <cppcms/encoding.h>
+#include <pcre.h>
 #include <booster/shared_ptr.h>
 #include <map>
 #include <set>
@@ -27,10 +28,33 @@ using namespace cppcms;
 typedef std::set<std::pair<int,std::pair<std::string,bool> > > table_type;
 static std::string hex0(std::string const &s) { std::string h=vh::hex(s); return h=="-"?std::string(""):h; }
 
+// Full-match verdict of a pattern on a value computed with libpcre DIRECTLY (not through booster::regex): the harness
+// compiles \A(?:pattern)\z itself and runs pcre_exec anchored, additionally requiring the reported match to span the
+// whole subject.  This - not booster's verdict - is what the Lean model receives as the regex oracle, so a wrapper that
+// stops anchoring (or stops checking the span) shows up as a difference between the real validate() and the model.
+struct raw_regex {
+	pcre *re;
+	raw_regex() : re(0) {}
+	void compile(std::string const &pattern)
+	{
+		std::string full="\\A(?:"+pattern+")\\z";
+		char const *err=0; int off=0;
+		re=pcre_compile(full.c_str(),0,&err,&off,0);
+	}
+	bool full_match(char const *b,char const *e) const
+	{
+		if(!re) return false;
+		int ovec[3]={0,0,0};
+		int rc=pcre_exec(re,0,b,int(e-b),0,PCRE_ANCHORED,ovec,3);
+		return rc>=0 && ovec[0]==0 && ovec[1]==int(e-b);
+	}
+};
+
 struct pred {
 	std::string type;
 	std::string arg;
 	booster::regex re,sre;
+	raw_regex raw;     // the pattern (type re) or the scheme expression (uri, absuri), compiled with libpcre directly
 	xss::rules::validator_type v;
 };
 
@@ -54,12 +78,16 @@ struct recording_validator {
 	table_type *table;
 	bool operator()(char const *b,char const *e) const
 	{
+		// what the real validate() sees: booster::regex / the real URI validator
 		bool r = p->type=="re" ? booster::regex_match(b,e,p->re) : p->v(b,e);
-		table->insert(std::make_pair(id,std::make_pair(std::string(b,e),r)));
+		// what the model is told: raw PCRE full match for regex attributes, the real verdict for URI validators (the model
+		// recomputes those itself and cross-checks)
+		bool told = p->type=="re" ? p->raw.full_match(b,e) : r;
+		table->insert(std::make_pair(id,std::make_pair(std::string(b,e),told)));
 		if(p->type=="uri" || p->type=="absuri") {
-			// verdict of the scheme regex (PCRE) on the scheme text: parameter of the Lean model of uri_parser
+			// verdict of the scheme expression on the scheme text (raw PCRE): parameter of the Lean model of uri_parser
 			std::string sch=scheme_text(b,e);
-			table->insert(std::make_pair(id+1000,std::make_pair(sch,booster::regex_match(sch,p->sre))));
+			table->insert(std::make_pair(id+1000,std::make_pair(sch,p->raw.full_match(sch.c_str(),sch.c_str()+sch.size()))));
 		}
 		return r;
 	}
@@ -107,9 +135,9 @@ static bool build(std::vector<std::string> const &w,built &b)
 		if(f.size()<2) return false;
 		pred p; p.type=f[1];
 		if(f.size()>2 && !vh::unhex(f[2],p.arg)) return false;
-		if(p.type=="re") p.re=booster::regex(p.arg);
-		else if(p.type=="uri") { p.v=xss::rules::uri_validator(p.arg,false); p.sre=booster::regex(p.arg); }
-		else if(p.type=="absuri") { p.v=xss::rules::uri_validator(p.arg,true); p.sre=booster::regex(p.arg); }
+		if(p.type=="re") { p.re=booster::regex(p.arg); p.raw.compile(p.arg); }
+		else if(p.type=="uri") { p.v=xss::rules::uri_validator(p.arg,false); p.sre=booster::regex(p.arg); p.raw.compile(p.arg); }
+		else if(p.type=="absuri") { p.v=xss::rules::uri_validator(p.arg,true); p.sre=booster::regex(p.arg); p.raw.compile(p.arg); }
 		else if(p.type=="reluri") p.v=xss::rules::relative_uri_validator();
 		else return false;
 		b.preds[atoi(f[0].c_str())]=p;
@@ -259,7 +287,8 @@ static std::string run(std::vector<std::string> const &w)
 		else return "bad-op";
 		bool r=val(v.c_str(),v.c_str()+v.size());
 		std::string st=scheme_text(v.c_str(),v.c_str()+v.size());
-		bool sv = w[1]=="reluri" ? false : booster::regex_match(st,booster::regex(sch));
+		raw_regex rr; if(w[1]!="reluri") rr.compile(sch);
+		bool sv = w[1]=="reluri" ? false : rr.full_match(st.c_str(),st.c_str()+st.size());
 		return std::string(r?"1":"0")+" T=1000:"+hex0(st)+":"+(sv?"1":"0");
 	}
 	if(w.size()!=7) return "bad-op";
